@@ -706,6 +706,7 @@ void assignIndicesWorker(LockFreeStack<N>& tasks,
         // Pick a task from the local empty, falling back to the MPMC
         // stack if the local stack is empty.  If both are empty, then
         // spin here until another thread adds a task to the global stack.
+        LIBFIVE_VERIF_POINT(verif::SITE_INDEX_LOOP);
         AssignIndexTask<N> task;
         if (local.size()) {
             task = local.top();
@@ -853,8 +854,9 @@ void assignIndicesWorker(LockFreeStack<N>& tasks,
         }
     }
 
-    LIBFIVE_VERIF_POINT(verif::SITE_INDEX_EXIT, cancel.load() ? 1 : 0, done.load() ? 1 : 0);
+    LIBFIVE_VERIF_ONLY(const bool verif_done_seen = done.load();)
     done.store(true);
+    LIBFIVE_VERIF_POINT(verif::SITE_INDEX_EXIT, cancel.load() ? 1 : 0, verif_done_seen ? 1 : 0);
 }
 
 template <unsigned N>
